@@ -6,6 +6,7 @@
 From Coq Require Import List String Bool Arith Lia.
 From IprV Require Import GenTypes Schema Typing Stability.
 From IprV.gen Require Import GenStore.
+From IprV Require StateSpace.
 Import ListNotations.
 Local Open Scope string_scope.
 Local Open Scope list_scope.
@@ -48,6 +49,12 @@ Example c05_example :
   nth_error (hrun (h1 ++ h2)) 1 = nth_error (hrun h1) 1.
 Proof. vm_compute. split; reflexivity. Qed.
 
+(* the list-like stores have no state beyond their standard container (and obj_list its end mark) (StateSpace.v against the regenerated GenState) *)
+Theorem c05_state_is_what_the_model_abstracts :
+  StateSpace.state_as_modelled (StateSpace.store_state) = true.
+Proof. vm_compute. reflexivity. Qed.
+
+Print Assumptions c05_state_is_what_the_model_abstracts.
 Print Assumptions c05_observation_stable.
 Print Assumptions c05_untouched_node_is_identical.
 Print Assumptions c05_make_fresh.
